@@ -1,4 +1,5 @@
 import IgrisModel.C10.Model
+import IgrisModel.C10.ModelPtr
 open Igris.Proto Igris.C10
 
 inductive St where
@@ -7,7 +8,7 @@ inductive St where
   | ipool (p : IPool)
   | sop (st : Nat) (p : SOPx) (zt : List (Nat × Nat × Nat))  -- sizeof(storage_type), pool, zone table
   | mpool (m : Links) (s : MState) (zt : List (Nat × Nat × Nat))  -- several zones: (base, cells, elemsz)
-  | heap (cfg : Cfg) (h : Heap) (slots : List (Nat × Nat))   -- slot ↦ payload offset
+  | heap (cfg : Cfg) (h : Heap) (ph : PHeap) (slots : List (Nat × Nat))   -- slot ↦ payload offset; list model and `nx`-pointer model side by side
 
 def optS : Option Nat → String
   | none => "null"
@@ -63,6 +64,13 @@ def heapLine (ret : String) (h : Heap) (slots : List (Nat × Nat)) : String :=
     s!"{k}:{p}:{match lookup (p - 8) h.live with | some s => toString s | none => "?"} ")
   s!"ret={ret} brk={h.brk} fl={fl} live={lv.trimAscii}"
 
+/-- the `nx`-pointer model must agree with the list model: same break, the free list read through
+`__flp` / `nx` / `sz` words equals the list, every live header word equals the recorded size, same
+returned pointer -/
+def ptrAgree (h : Heap) (ph : PHeap) (ret retP : Option Nat) : String :=
+  if ph.brk = h.brk ∧ walkFl ph (ph.brk + 1) = h.flp ∧ h.live.all (fun c => ph.szf c.1 == c.2) ∧ ret = retP
+  then "" else " MISMATCH-PTR"
+
 def stepLine (st : St) (line : String) : St × String :=
   let bad := (st, "bad-op")
   let st' := st
@@ -97,7 +105,7 @@ def stepLine (st : St) (line : String) : St × String :=
   | "reset" :: "heap" :: l :: _ =>
     -- an optional 4th word selects the debug / release build of the C code: same model
     match l.toNat? with
-    | some l => (.heap ⟨64, l⟩ Heap.init [], "ok")
+    | some l => (.heap ⟨64, l⟩ Heap.init PHeap.init [], "ok")
     | none => bad
   | ws =>
     match st, ws with
@@ -204,14 +212,15 @@ def stepLine (st : St) (line : String) : St × String :=
           (st', (if a then "1" else "0") ++ (if a != b then " MISMATCH" else ""))
         | none => (st', "fault")
       | _, _ => bad
-    | .heap cfg h slots, ["m", k, n] =>
+    | .heap cfg h ph slots, ["m", k, n] =>
       match k.toNat?, n.toNat? with
       | some k, some n =>
         let r := malloc cfg h n
+        let rp := mallocP cfg ph n (ph.brk + 1)
         let slots' := slotSet slots k r.ret
-        (.heap cfg r.h slots', heapLine (optS r.ret) r.h slots')
+        (.heap cfg r.h rp.h slots', heapLine (optS r.ret) r.h slots' ++ ptrAgree r.h rp.h r.ret rp.ret)
       | _, _ => bad
-    | .heap cfg h slots, ["f", k] =>
+    | .heap cfg h ph slots, ["f", k] =>
       match k.toNat? with
       | some k =>
         match slotGet slots k with
@@ -220,20 +229,22 @@ def stepLine (st : St) (line : String) : St × String :=
           match free h p with
           | none => (st, "fault")
           | some r =>
+            let rp := freeP ph p (ph.brk + 1)
             let slots' := slotSet slots k none
-            (.heap cfg r.h slots', heapLine "-" r.h slots')
+            (.heap cfg r.h rp.h slots', heapLine "-" r.h slots' ++ ptrAgree r.h rp.h none none)
       | none => bad
-    | .heap cfg h slots, ["r", k, n] =>
+    | .heap cfg h ph slots, ["r", k, n] =>
       match k.toNat?, n.toNat? with
       | some k, some n =>
         match realloc cfg h (slotGet slots k) n with
         | none => (st, "fault")
         | some r =>
+          let rp := reallocP cfg ph (slotGet slots k) n (ph.brk + 1)
           -- a NULL result leaves the old block alive
           let slots' := match r.ret with
             | none => slots
             | some q => slotSet slots k (some q)
-          (.heap cfg r.h slots', heapLine (optS r.ret) r.h slots')
+          (.heap cfg r.h rp.h slots', heapLine (optS r.ret) r.h slots' ++ ptrAgree r.h rp.h r.ret rp.ret)
       | _, _ => bad
     | _, _ => bad
 
